@@ -339,8 +339,12 @@ impl System for Sys {
                     if !t.live {
                         labels.push("result-of-non-live-token".into());
                         if before != after_fetching {
+                            // Which ongoing fetch did the stale result hit: one from the same peer
+                            // (after a reconnect) or one from another peer?
+                            let hit_from = before.get(&t.rid.to_string()).map(|e| e.0.clone()).unwrap_or_default();
+                            let variant = if hit_from == t.remote.to_string() { "same-peer-after-reconnect" } else { "fetch-from-other-peer" };
                             vs.push(Violation::new(
-                                "C16/stale-result-changed-ongoing-fetches",
+                                format!("C16/stale-result-changed-ongoing-fetches/{variant}"),
                                 format!(
                                     "late result of cancelled fetch #{} ({} from {}) changed the ongoing fetches from {:?} to {:?}",
                                     t.n, t.rid, self.name(&t.remote), before, after_fetching
@@ -357,8 +361,9 @@ impl System for Sys {
                             if m != t.n {
                                 vs.push(Violation::new("C16/subscriber-got-foreign-marker", format!("subscriber got marker of token #{m} while #{} was delivered", t.n), json!({})));
                             } else if !t.live {
+                                let variant = if s.from == t.remote { "same-peer-after-reconnect" } else { "fetch-from-other-peer" };
                                 vs.push(Violation::new(
-                                    "C16/stale-result-delivered-to-subscriber",
+                                    format!("C16/stale-result-delivered-to-subscriber/{variant}"),
                                     format!("subscriber waiting for {} from {} received the late result of cancelled fetch #{}", s.rid, self.name(&s.from), t.n),
                                     json!({}),
                                 ));
